@@ -1,4 +1,4 @@
-From Verif Require Import Lib.Base Mkvs.Trie Mkvs.BitsProofs Mkvs.AlistProofs Mkvs.TrieProofs Mkvs.HashProofs Mkvs.Overlay Mkvs.Corr Mkvs.CorrProofs Mkvs.Key Mkvs.KeySweep Mkvs.KeyProofs.
+From Verif Require Import Lib.Base Mkvs.Trie Mkvs.BitsProofs Mkvs.AlistProofs Mkvs.TrieProofs Mkvs.HashProofs Mkvs.Overlay Mkvs.Corr Mkvs.CorrProofs Mkvs.Key Mkvs.KeySweep Mkvs.KeyProofs Mkvs.KeyLift.
 
 (* C02 - MKVS root hash depends only on the key/value contents.
    [wf] = path-prefix discipline + canonical compression; [valid_bytes] = every
@@ -146,3 +146,28 @@ Theorem key_cpl_cross_byte_partial :
     k_cpl (pack a) (N.of_nat (length a)) (pack b) (N.of_nat (length b)) = N.of_nat (lcp a b).
 Proof. exact KeyProofs.key_cpl_spec2. Qed.
 Print Assumptions key_cpl_cross_byte_partial.
+
+(* ---- the same four, for ALL lengths (Mkvs/KeyLift.v: per-byte tables over
+   (byte, byte, shift) lifted by induction over whole bytes) ---- *)
+Theorem key_split :
+  forall (p : path) sp, (sp <= length p)%nat ->
+    k_split (pack p) (N.of_nat sp) (N.of_nat (length p)) = (pack (firstn sp p), pack (skipn sp p)).
+Proof. exact KeyLift.key_split_general. Qed.
+Print Assumptions key_split.
+
+Theorem key_merge :
+  forall a b : path,
+    k_merge (pack a) (N.of_nat (length a)) (pack b) (N.of_nat (length b)) = pack (a ++ b).
+Proof. exact KeyLift.key_merge_general. Qed.
+Print Assumptions key_merge.
+
+Theorem key_appendbit :
+  forall (p : path) v, k_appendbit (pack p) (N.of_nat (length p)) v = pack (p ++ [v]).
+Proof. exact KeyLift.key_appendbit_general. Qed.
+Print Assumptions key_appendbit.
+
+Theorem key_cpl :
+  forall a b : path,
+    k_cpl (pack a) (N.of_nat (length a)) (pack b) (N.of_nat (length b)) = N.of_nat (lcp a b).
+Proof. exact KeyLift.key_cpl_general. Qed.
+Print Assumptions key_cpl.
